@@ -185,7 +185,8 @@ def plan(tier, seed):
         own = {"features": [G.feature([G.scenario(["pass"], ts) for ts in subsets])], "family": "truth"}
         # (in Gherkin everything after a Rule belongs to it: the outline comes first)
         inherited = {"features": [G.feature([G.outline([(ts, [["pass"]]) for ts in subsets[8:]], ["wip"]),
-                                             G.rule([G.scenario(["pass"], ts) for ts in subsets[:8]], ["t2"])], ["t1"])], "family": "truth"}
+                                             G.rule([G.scenario(["pass"], ts) for ts in subsets[:8]], ["t2"])], ["t1"], bg=["pass"])],
+                     "family": "truth"}
         cfgs = [G.cfg(expr=e) for e in G.EXPRS] + [G.cfg(expr=e, show_skipped=False, dry=(i % 2 == 0)) for i, e in enumerate(G.EXPRS)]
         return [(with_o2(own), cfgs, [[0, 0]]), (with_o2(inherited), cfgs, [[0, 0]])]
 
@@ -203,6 +204,12 @@ def plan(tier, seed):
                     prog = {"features": [G.feature([G.scenario(["pass"] * k + [o])], tags)], "family": "excclass"}
                     res.append((with_o2(prog), [G.cfg()], [[0, 0]]))
         return res
+
+    def decorated_hook_programs():
+        """the after_scenario hook wrapped with @behave.log_capture.capture, every single hook invocation as fault"""
+        prog = {"features": [G.feature([G.scenario(["pass"]), G.scenario(["pass", "pass"], ["t1"])])], "family": "capdeco"}
+        nh = G.count_hooks_upper(G.flatten(prog))
+        return [(with_o2(prog), [G.cfg(capdeco=True), G.cfg(capdeco=True, capture=(True, True, False))], [[0, 0]] + [[k, 0] for k in range(1, nh + 1)])]
 
     def with_literal(p, prob):
         """some programs: outline steps whose text is the same in all rows are written without placeholder"""
@@ -314,6 +321,7 @@ def plan(tier, seed):
         out.extend(pair_programs(1))
         out.extend(truth_table_programs())
         out.extend(exception_class_programs())
+        out.extend(decorated_hook_programs())
     else:
         # ~85k runs: (a) EVERY hook invocation as injection point on the exhaustive family scen(2) under the default
         # configuration (also with autoretry: positions of the second attempt); (b) scen(3) under 4 configurations with
@@ -345,6 +353,7 @@ def plan(tier, seed):
         out.extend(pair_programs(3))
         out.extend(truth_table_programs())
         out.extend(exception_class_programs())
+        out.extend(decorated_hook_programs())
         for p in G.family_big(rnd, 300):
             out.append((with_o2(p), [rcfg(), rcfg()], rfaults(p, 6)))
     return out
@@ -354,7 +363,7 @@ def shared(chk, part="core"):
     """Run (or load) the shared stage for this tree / tier / seed.  Returns a dict:
        n_runs, tlc: [{module,cfg,distinct,generated,wall,coverage}], verdicts: {clause: [ {key, ...} ]},
        divergences, samples, design_violations"""
-    key = tree_key({"tier": chk.tier, "seed": chk.seed, "part": part, "v": 31})
+    key = tree_key({"tier": chk.tier, "seed": chk.seed, "part": part, "v": 32})
     os.makedirs(CACHE, exist_ok=True)
     # one entry per (part, tier, repository location): runs against a mutated copy must not evict /repo's entry
     prefix = "%s-%s-%s-" % (part, chk.tier, hashlib.sha256(REPO.encode()).hexdigest()[:8])
